@@ -207,7 +207,7 @@ def mk_redecompose(reach):
     return h
 
 
-MALFORMED = ["example.com/a", "//example.com/a", "/a/b", "", "coap:///a", "coap://", "coap:no-slashes", "coap://h/a#frag", "coap://h/#f", "coap://user@h/",
+MALFORMED = ["coap://:5683/path", "coaps://:5684", "coap+tcp://:/x", "coap://:/", "example.com/a", "//example.com/a", "/a/b", "", "coap:///a", "coap://", "coap:no-slashes", "coap://h/a#frag", "coap://h/#f", "coap://user@h/",
              "coap://user:pw@h/", "coap://:pw@h/", "coap://h:abc/", "coap://[::1]:abc/", "coap://h:99999/", "coap://h:-1/", "coap://h/%FF", "coap://h/a/%C3",
              "coap://h/?%FF", "coap://h/?a=%E4", "coap://%FFh/", "coap://[::1/", "coap://]/", "coap://[::1]x/", "coap://h:/", "coap://h/%", "coap://h/%4",
              "coap://h /", "coap://h\t/a", "coaps+tcp://[v1.x]/", "coap+ws://h:0x10/"]
@@ -232,7 +232,7 @@ def mk_malformed(reach):
         except Exception:
             ok = False
         assert ok, "only the documented URL errors may be raised"
-        must_fail = i < 22          # the first entries are unacceptable per the statement (no scheme, no host, fragment, user info,
+        must_fail = i < 26          # the first entries are unacceptable per the statement (no scheme, no host, fragment, user info,
         #                             non-numeric port, non-UTF-8 escapes, broken brackets)
         if must_fail:
             assert raised is not None, "unacceptable CoAP URI was accepted"
